@@ -58,6 +58,13 @@ type rpcWorld struct {
 	subs   []subRec
 	sent   []int
 	nrecv  int
+	cblocked map[int]int
+	// timer gate (verif hook in rpc/handler.go): the timer function waits here between cancel() and
+	// the error response until the schedule says "TimerBody"
+	gated       bool
+	timerGate   chan struct{}
+	gateEntered bool
+	cancels     []context.CancelFunc
 	// conn
 	cli, srvEnd net.Conn
 	outBuf      bytes.Buffer
@@ -101,6 +108,19 @@ func (s *service) Blk(ctx context.Context, tag int) string {
 	return retVal
 }
 
+// Cblk is a cancellation-aware method: it returns as soon as the request context is cancelled.
+func (s *service) Cblk(ctx context.Context, tag int) string {
+	w := s.w
+	w.mu.Lock()
+	w.cblocked[tag/100]++
+	w.mu.Unlock()
+	<-ctx.Done()
+	w.mu.Lock()
+	w.cblocked[tag/100]--
+	w.mu.Unlock()
+	return retVal
+}
+
 // Feed is a subscription: it notifies once from inside the call (before the response can have been
 // written) and later whenever the harness says so.
 func (s *service) Feed(ctx context.Context, tag int) (*rpc.Subscription, error) {
@@ -123,7 +143,22 @@ func (s *service) Feed(ctx context.Context, tag int) (*rpc.Subscription, error) 
 func num(v any) int { return int(v.(float64)) }
 
 func newRPCWorld(meta map[string]any, pathNo int) *rpcWorld {
-	w := &rpcWorld{mode: meta["mode"].(string), meta: meta, pathNo: pathNo, gates: map[int]*gate{}}
+	w := &rpcWorld{mode: meta["mode"].(string), meta: meta, pathNo: pathNo, gates: map[int]*gate{}, cblocked: map[int]int{}}
+	if g, ok := meta["gated"].(bool); ok && g {
+		w.gated = true
+		w.timerGate = make(chan struct{})
+		rpc.VerifHook = func(ev string, kv ...any) {
+			w.mu.Lock()
+			w.gateEntered = true
+			w.mu.Unlock()
+			<-w.timerGate
+			w.mu.Lock()
+			w.gateEntered = false
+			w.mu.Unlock()
+		}
+	} else {
+		rpc.VerifHook = nil
+	}
 	w.srv = rpc.NewServer()
 	w.srv.SetBatchLimits(num(meta["batchLimit"]), num(meta["sizeLimit"]))
 	if err := w.srv.RegisterName("t", &service{w}); err != nil {
@@ -165,6 +200,8 @@ func entryJSON(e map[string]any, tag int, variant int) string {
 		meth = "t_err"
 	case "blk":
 		meth, params = "t_blk", fmt.Sprintf(`,"params":[%d]`, tag)
+	case "cblk":
+		meth, params = "t_cblk", fmt.Sprintf(`,"params":[%d]`, tag)
 	case "sub":
 		meth, params = "t_subscribe", fmt.Sprintf(`,"params":["feed",%d]`, tag)
 	}
@@ -208,11 +245,11 @@ func (w *rpcWorld) Do(act map[string]any) {
 				tl.Fatal("pipe write: %v", err)
 			}
 		} else {
-			ctx := context.Background()
-			var cancel context.CancelFunc = func() {}
+			ctx, cancel := context.WithCancel(context.Background())
+			w.cancels = append(w.cancels, cancel)
 			if w.meta["hasTimeout"].(bool) {
 				if w.pathNo%2 == 0 {
-					ctx, cancel = context.WithTimeout(ctx, timeout)
+					ctx, _ = context.WithTimeout(ctx, timeout)
 				} else { // the http.Server.WriteTimeout route of ContextRequestTimeout
 					ctx = context.WithValue(ctx, http.ServerContextKey, &http.Server{WriteTimeout: timeout + 100*time.Millisecond})
 				}
@@ -228,7 +265,6 @@ func (w *rpcWorld) Do(act map[string]any) {
 			w.done.Add(1)
 			go func() {
 				defer w.done.Done()
-				defer cancel()
 				w.srv.ServeHTTP(rec, req)
 				w.mu.Lock()
 				w.served[idx] = true
@@ -252,6 +288,14 @@ func (w *rpcWorld) Do(act map[string]any) {
 		close(open[0].ch)
 	case "Timer":
 		time.Sleep(timeout + time.Second)
+	case "TimerBody":
+		w.mu.Lock()
+		entered := w.gateEntered
+		w.mu.Unlock()
+		if !entered {
+			tl.Fatal("TimerBody: the timer function is not waiting at the gate")
+		}
+		close(w.timerGate)
 	case "Notify":
 		j := num(act["p"]) - 1
 		w.mu.Lock()
@@ -284,6 +328,7 @@ type outObs struct {
 type obsT struct {
 	Out     []outObs `json:"out"`
 	Blocked []bool   `json:"blocked"`
+	Gate    []bool   `json:"gate"`
 	Served  bool     `json:"served"`
 }
 
@@ -398,12 +443,34 @@ func (w *rpcWorld) Observe() any {
 				b = true
 			}
 		}
-		o.Blocked = append(o.Blocked, b)
+		o.Blocked = append(o.Blocked, b || w.cblocked[p] > 0)
+		o.Gate = append(o.Gate, p == 1 && w.gateEntered)
 	}
 	return o
 }
 
 func (w *rpcWorld) Cleanup() {
+	defer func() { rpc.VerifHook = nil }()
+	w.mu.Lock()
+	if w.gated && w.gateEntered {
+		select {
+		case <-w.timerGate:
+		default:
+			close(w.timerGate)
+		}
+	} else if w.gated {
+		// the timer may still fire later (during the cancellation below): never block it again
+		select {
+		case <-w.timerGate:
+		default:
+			close(w.timerGate)
+		}
+	}
+	for _, c := range w.cancels {
+		c() // unblocks cancellation-aware methods
+	}
+	w.mu.Unlock()
+	synctest.Wait()
 	w.mu.Lock()
 	for _, g := range w.gates {
 		if !g.released {
@@ -454,7 +521,11 @@ func checkSizes(meta map[string]any) {
 }
 
 func main() {
-	mode := flag.String("mode", "replay", "replay")
+	mode := flag.String("mode", "replay", "replay|stress")
+	trace := flag.String("trace", "", "ndjson output (stress)")
+	nreq := flag.Int("n", 600, "requests (stress)")
+	workers := flag.Int("workers", 6, "goroutines (stress)")
+	ctxAware := flag.Bool("ctxaware", false, "include methods that return on context cancellation (stress)")
 	in := flag.String("in", "", "schedule graph (replay)")
 	out := flag.String("out", "", "summary output")
 	flag.Parse()
@@ -467,6 +538,8 @@ func main() {
 		what := "rpc.Server/" + sc.g.Meta["mode"].(string)
 		explore(sc, func(pathNo int) world { return newRPCWorld(sc.g.Meta, pathNo+int(seed)) }, sum, what)
 		sum.Rule = "evaluations = TLC-derived schedules executed on a real rpc.Server under synctest; distinct = covered (quiescent model state, environment step) pairs of MCRPCSched whose parsed raw output (single/batch responses with id and error class, notifications) and blocked-method set matched the specification"
+	case "stress":
+		runStress(*trace, seed, *nreq, *workers, *ctxAware, sum)
 	default:
 		tl.Fatal("unknown mode %s", *mode)
 	}
